@@ -8,7 +8,7 @@ from .. import core
 from ..core import SKIP
 
 ID = "C09"
-RULE = ("(v7: + two genomes over the same chromosomes in the same / another order (equal-length chromosomes swapped): binary ops "
+RULE = ("(v8: + bedGraph files whose value column is spelled every way a float can be written ('.5', '5.', '+.5', '00.5', '5e0', '.5e1', '1e19', signs) at any row, read in memory and streamed; write -> read round trip of get_data() through a file (float / int tracks, masks; fractions, whole numbers, whole numbers past 2**63 / 2**64); genomes with more than 256 chromosomes through get_track / from_dict / t[intervals] / files / expression trees; v7: + two genomes over the same chromosomes in the same / another order (equal-length chromosomes swapped): binary ops "
         "and boolean indexing across them, tables with a chromosome column encoded by the other genome - refused or right by "
         "chromosome name; v6: + genomes past 2^31 / 2^32 / 2^33 bases (sparse observations), narrow value dtypes (uint8, int8, int16, float16, float32) "
         "with python and NumPy scalar operands on either side, dtype and values compared with dense NumPy; v5: + arrays must not follow later in-place edits of their input tables nor of the arrays/records they handed out "
@@ -40,6 +40,10 @@ ASSUMPTIONS = [
     "expression-tree leaves are int tracks (Genome.get_track), interval masks (GenomicIntervals.get_mask) and pileups "
     "(GenomicIntervals.get_pileup; counting by npstructures, so for trees with a pileup leaf the Lean model is compared on dense "
     "values and reductions, not on run boundaries); t[mask] is specified at the dense level (values at the True positions)",
+    "file cases (track_file_f, track_rt) use value texts that denote a double exactly and are exact to convert by any correct "
+    "reader: dyadic rationals with <= 15 significant digits, scientific notation only with exponent 0..22 (whole numbers up to 1e22); "
+    "rounding of arbitrary decimal texts is property C18's subject (known finding float_roundtrip:inexact-within-4ulp) and is not "
+    "re-tested here; lower-case 'e' only (an upper-case 'E', 'inf', 'nan' are refused by the reader with a FormatException)",
     "float expression trees are also run on the Lean model (Lean Float = IEEE double in the compiled driver; +,-,*,neg,<,>,== are "
     "exact copies of the NumPy operations, join_runs uses IEEE ==); only the float sum is left to the dense oracle",
 ]
@@ -156,6 +160,79 @@ def _rand_ivs(rng, sizes):
             a = rng.randrange(sz)
             out.append([c, a, rng.randrange(a + 1, sz + 1), 1])
     return out
+
+
+# ---- value TEXTS in bedGraph files. Every text denotes a double exactly (a dyadic rational with <= 15 significant digits; in
+# scientific notation a non-negative exponent <= 22), so any correct reader returns that double and no rounding question
+# (property C18) arises; what varies is the SPELLING, at every row of the column.
+_EXACT = [0.5, 0.25, 0.125, 1.5, 2.75, 3.0, 7.0, 40.0, 0.0625, 10.5, 1024.0, 0.375, 100.0, 6.5]
+
+
+def _spell(rng, v):
+    """one of the spellings of the non-negative exactly representable v (python's float() is the reference reader)"""
+    r = repr(float(v))                      # '0.5', '3.0', '1024.0'
+    whole = float(v) == int(v)
+    forms = [r, r, r + "0", "0" + r, "+" + r]
+    if r.startswith("0."):
+        forms += [r[1:], r[1:], r[1:] + "0", "+" + r[1:]]                   # '.5'
+    if whole:
+        i = str(int(v))
+        forms += [i, i + ".", i + ".", "+" + i, "00" + i, i + "e0", i + ".e0", i + ".0e0", i + "e+0", i + "e-0"]
+        if int(v) % 10 == 0 and int(v) > 0:
+            forms += [str(int(v) // 10) + "e1", str(int(v) // 10) + "e+1", "." + str(int(v) // 10) + "e2"]
+    else:
+        forms += [r + "e0", r + "e+0", r + "e1", r + "e+2"]       # a dyadic mantissa times an exact power of ten: still exact
+        if r.startswith("0."):
+            forms += [r[1:] + "e0", r[1:] + "e1", "-" + r[1:] + "e3"]
+    return rng.choice(forms)
+
+
+def _spelled_track(rng, sizes, negative=True):
+    """records [chrom, start, stop, text]"""
+    recs = _rand_track(rng, sizes, "int", maxn=rng.choice([2, 4, 6]))
+    if not recs:
+        recs = [[0, 0, 1, 0]]
+    style = rng.choice(["mixed", "mixed", "mixed", "whole", "dots"])
+    for r in recs:
+        v = rng.choice(_EXACT if style == "mixed" else ([x for x in _EXACT if x == int(x)] if style == "whole" else [x for x in _EXACT if x < 1]))
+        t = _spell(rng, v)
+        if negative and rng.random() < 0.2:
+            t = "-" + t.lstrip("+-")
+        r[3] = t
+    if rng.random() < 0.3:        # one huge whole number (past int64 / uint64) among the values
+        rng.choice(recs)[3] = rng.choice(["1e19", "2e+19", "30000000000000000000", "5e21", "1e22", "10000000000000000000.", "1.5e19"])
+    return recs
+
+
+# values for the write -> read round trip of get_data(): the shortest repr (what the writer prints) has <= 15 significant
+# digits, a decimal exponent in -4..22, and is exact to parse: dyadic fractions, and whole numbers up to 1e22 - the latter
+# include magnitudes past 2**63 and 2**64, which no integer type holds
+_RT_FRAC = [0.5, -2.25, 1.5, 0.125, 2.5, -0.5, 10.75, 0.0625]
+_RT_WHOLE = [3.0, 40.0, 1024.0, -7.0, 1e15, 1e16, 1e19, 2e19, -3e19, 9.3e18, 5e21, 1e22, -1e22, 123456789012345.0, 2.0 ** 40, 1.0]
+
+
+def _many_chrom_cases(rng, big):
+    """genomes with more than 256 chromosomes (records and intervals on chromosomes number 255, 256, 257, ..., last)"""
+    for N in [257, 300] + [rng.randrange(258, 600) for _ in range(4 if big else 1)]:
+        sizes = [rng.choice([1, 2, 3, 5]) for _ in range(N)]
+        hot = sorted(set(h for h in (0, 255, 256, 257, N - 2, N - 1, rng.randrange(256, N), rng.randrange(N)) if h < N))
+        recs = []
+        for c in hot:
+            a = rng.randrange(sizes[c])
+            recs.append([c, a, rng.randrange(a + 1, sizes[c] + 1), rng.choice([1, 2, 3, 5, -4])])
+        recs[-1] = [N - 1, 0, sizes[N - 1], 7]
+        yield {"op": "track", "sizes": sizes, "recs": recs, "kind": "int"}
+        yield {"op": "geo_track", "sizes": sizes, "recs": recs, "kind": "int"}
+        yield {"op": "track_from_dict", "sizes": sizes, "recs": recs, "kind": "int", "via": rng.choice(["dict", "stream"])}
+        ivs = [[c, 0, sizes[c], rng.randrange(2)] for c in hot]
+        yield {"op": "extract", "sizes": sizes, "recs": recs, "ivs": ivs, "locs": [[c, sizes[c] - 1] for c in hot], "stranded": rng.random() < 0.5}
+        if N == 257 or big:
+            yield {"op": "track_file", "sizes": sizes, "recs": recs, "k": 2}
+        yield {"op": "track_rt", "sizes": sizes, "recs": [r[:3] + [_f2b(float(r[3]))] for r in recs], "kind": "float"}
+        yield {"op": "track_rt", "sizes": sizes, "recs": [r[:3] + [1] for r in recs], "kind": "mask"}
+        P, T, M = ({"t": "leaf", "i": i} for i in range(3))
+        lv = [{"kind": "pileup", "recs": [r[:3] + [1] for r in recs]}, {"kind": "int", "recs": recs}, {"kind": "mask", "recs": [[c, 0, 1, 1] for c in hot]}]
+        yield {"op": "expr", "sizes": sizes, "leaves": lv, "tree": {"t": "bin", "f": "add", "a": P, "b": T}, "red": "sum", "idx": M}
 
 
 BIN_I = ["add", "sub", "mul"]
@@ -339,6 +416,26 @@ def cases(tier, rng):
     for _ in range(40 if big else 8):      # more than ten chromosomes: str() shows the first ten
         sizes = [rng.choice([1, 2, 3]) for _ in range(rng.choice([11, 12, 14]))]
         yield {"op": "track_str", "sizes": sizes, "recs": _rand_track(rng, sizes, "int", maxn=1)}
+    # 2g. more than 256 chromosomes
+    yield from _many_chrom_cases(rng, big)
+    # 2h. bedGraph FILES whose value column is spelled in every way a float can be written ('.5', '5.', '+.5', '5e0', '1e19', ...),
+    #     at any row; and the write -> read round trip of get_data() (float / int tracks -> .bdg, masks -> .bed) with fractions,
+    #     whole numbers, and whole numbers past 2**63
+    for _ in range(1500 if big else 250):
+        sizes = [rng.choice([2, 5, 9, 20]) for _ in range(rng.choice([1, 2, 3]))]
+        yield {"op": "track_file_f", "sizes": sizes, "recs": _spelled_track(rng, sizes), "k": rng.choice([1, 2, 3])}
+        kind = rng.choice(["float", "float", "int", "mask"])
+        recs = _rand_track(rng, sizes, "int", maxn=rng.choice([2, 4]))
+        if kind == "float":
+            pool = rng.choice([_RT_WHOLE, _RT_WHOLE, _RT_FRAC + _RT_WHOLE, _RT_FRAC])
+            for r in recs:
+                r[3] = _f2b(rng.choice(pool))
+        elif kind == "int":
+            for r in recs:
+                r[3] = rng.choice([1, 2, -3, 0, 7, 2 ** 40, -10 ** 14, 10 ** 15, 255, 256, 65536])
+        else:
+            recs = _rand_ivs(rng, sizes)
+        yield {"op": "track_rt", "sizes": sizes, "recs": recs, "kind": kind}
     # 3. random larger tracks and expression trees
     N = 3000 if big else 500
     D = 4 if big else 3
@@ -430,9 +527,13 @@ def nontrivial(c):
         return len(c["values"]) >= 1
     if op == "extract":
         return bool(c["ivs"]) or bool(c["locs"])
+    if op == "track_file_f":
+        return len(c["recs"]) >= 2 and any(not r[3][:1].isdigit() or r[3].endswith(".") or "e" in r[3] for r in c["recs"][1:])
+    if op == "track_rt":
+        return len(c["recs"]) >= 1
     if op in ("track", "geo_track", "track_str", "track_from_dict", "track_file"):
         return len(c["sizes"]) >= 2 or len(c["recs"]) >= 2
-    return _depth(c["tree"]) >= 2 or bool(c.get("ignored"))
+    return _depth(c["tree"]) >= 2 or bool(c.get("ignored")) or len(c["sizes"]) > 256
 
 
 # ------------------------------------------------------------------ implementation
@@ -867,6 +968,39 @@ def _impl_raw(c):
             d = m["bnp"].compute((genome.read_track(fn, stream=True) > k).get_data())
             out["where"] = [[names.index(n), int(a), int(b)] for n, a, b in zip(d.chromosome.tolist(), d.start.tolist(), d.stop.tolist())]
             return out
+        if op in ("track_file_f", "track_rt"):
+            import os, tempfile, atexit, shutil
+            if not _TMP:
+                _TMP.append(tempfile.mkdtemp(prefix="c09-"))
+                atexit.register(shutil.rmtree, _TMP[0], True)
+            sizes = c["sizes"]
+            genome = m["bnp"].Genome.from_dict(_sizes_dict(sizes))
+            names = list(_sizes_dict(sizes))
+            f64 = lambda d: [_out(None, np.asarray(d[n], dtype=np.float64)) for n in names]
+            if op == "track_file_f":
+                fn = os.path.join(_TMP[0], "f%d.bdg" % os.getpid())
+                with open(fn, "w") as fh:
+                    fh.write("".join("chr%d\t%d\t%d\t%s\n" % (r[0] + 1, r[1], r[2], r[3]) for r in c["recs"]))
+                k = c["k"]
+                out = {"mem": f64(genome.read_track(fn).to_dict())}
+                out["sum"] = _f2b(float(np.sum(genome.read_track(fn, stream=True)).compute()))
+                d = m["bnp"].compute((genome.read_track(fn, stream=True) * k).get_data())
+                out["data"] = [[names.index(n), int(a), int(b), v] for n, a, b, v in
+                               zip(d.chromosome.tolist(), d.start.tolist(), d.stop.tolist(), _out(None, np.asarray(d.value, dtype=np.float64)))]
+                d = (genome.read_track(fn) > k).get_data()
+                out["where"] = [[names.index(n), int(a), int(b)] for n, a, b in zip(d.chromosome.tolist(), d.start.tolist(), d.stop.tolist())]
+                return out
+            kind = c["kind"]
+            if kind == "mask":
+                t = genome.get_intervals(_ivtab(c["recs"])).get_mask()
+                fn = os.path.join(_TMP[0], "r%d.bed" % os.getpid())
+            else:
+                t = genome.get_track(_bg(c["recs"], kind))
+                fn = os.path.join(_TMP[0], "r%d.bdg" % os.getpid())
+            with m["bnp"].open(fn, "w") as fh:
+                fh.write(t.get_data())
+            back = genome.read_intervals(fn).get_mask() if kind == "mask" else genome.read_track(fn)
+            return {"first": f64(t.to_dict()), "back": f64(back.to_dict()), "same": int(np.sum(back == t))}
         if op in ("expr", "expr_f"):
             sizes = c["sizes"]
             genome = _genome(sizes, c.get("ignored"), c.get("via_file", False))
@@ -877,7 +1011,7 @@ def _impl_raw(c):
                 out["bool"] = bool(g.dtype == bool)
                 if op == "expr":
                     out["gsize"] = int(genome.size)
-                    if not (repr(genome).startswith("Genome(") and all(n in str(genome) for n in _sizes_dict(sizes))
+                    if not (repr(genome).startswith("Genome(") and all(n in str(genome) for n in list(_sizes_dict(sizes))[:10])
                             and list(genome.get_genome_context().chrom_sizes.items()) == list(_sizes_dict(sizes).items())):
                         out["gsize"] = -1     # repr / str / chrom_sizes of the genome do not list the included chromosomes
                 if c.get("idx") is not None:
@@ -1082,6 +1216,35 @@ def oracle(c):
                "hist": [int(v) for v in np.histogram(g, bins=[-10, 0, 1, 3, 10])[0].tolist()], "dense_k": [(d * k).tolist() for d in dense],
                "gt_k": [(d > k).astype(int).tolist() for d in dense]}
         return out
+    if op == "track_file_f":
+        sizes = c["sizes"]
+        per = _split(sizes, c["recs"])
+        if not c["recs"] or any(not _ok_bedgraph(rs, sz) for rs, sz in zip(per, sizes)) or [r[0] for r in c["recs"]] != sorted(r[0] for r in c["recs"]):
+            return SKIP
+        dense = []
+        for rs, sz in zip(per, sizes):
+            a = np.zeros(sz, dtype=np.float64)
+            for r in rs:
+                a[r[1]:r[2]] = float(r[3])          # the text of the record, read by python
+            dense.append(a)
+        k = c["k"]
+        g = np.concatenate(dense)
+        return {"mem": [_out(None, d) for d in dense], "sum": _f2b(float(g.sum())), "dense_k": [_out(None, d * k) for d in dense],
+                "gt_k": [(d > k).astype(int).tolist() for d in dense]}
+    if op == "track_rt":
+        sizes, kind = c["sizes"], c["kind"]
+        if kind == "mask":
+            if not c["recs"]:
+                return SKIP        # no interval, empty file: nothing to infer the format from
+            g = _genome_dense(sizes, {"kind": "mask", "recs": c["recs"]})
+        else:
+            per = _split(sizes, c["recs"])
+            if any(not _ok_bedgraph(rs, sz) for rs, sz in zip(per, sizes)) or [r[0] for r in c["recs"]] != sorted(r[0] for r in c["recs"]):
+                return SKIP
+            g = np.concatenate([_dense(rs, kind, sz) for rs, sz in zip(per, sizes)])
+        offs = np.insert(np.cumsum(sizes), 0, 0)
+        d = [_out(None, g[offs[i]:offs[i + 1]].astype(np.float64)) for i in range(len(sizes))]
+        return {"first": d, "back": d, "same": int(sum(sizes))}
     if op == "track_str":   # str(): one line per chromosome, the dense array as NumPy prints it
         sizes = c["sizes"]
         per = _split(sizes, c["recs"])
@@ -1177,6 +1340,15 @@ def agree(c, got, exp):
     if op == "rle_to_array":
         return got["dense"] == exp["dense"] and got["bedgraph"] == exp["bedgraph"]
     if op == "extract":
+        return core.canon(got) == core.canon(exp)
+    if op == "track_file_f":
+        if got["mem"] != exp["mem"]:
+            return False
+        a, b = _b2f(got["sum"]), _b2f(exp["sum"])
+        if not abs(a - b) <= 1e-9 * max(1.0, abs(b)):
+            return False
+        return _records_ok(got["data"], exp["dense_k"], False) and _records_ok(got["where"], exp["gt_k"], True)
+    if op == "track_rt":
         return core.canon(got) == core.canon(exp)
     if op == "track_file":
         if got["mem"] != exp["mem"] or got["sum"] != exp["sum"] or got["hist"] != exp["hist"]:
